@@ -21,7 +21,7 @@ Inductive outcome := OutOk (nsys : nat) | OutFail (e : nat) (nsys : nat).
       success after nsys descriptor syscalls, or a fatal failure e (errno, or ErrOverflow with nsys = 0) *)
 Inductive ores := RDone | RClosed | RErr (e : nat).
 Inductive regres := RegOk | RegTooBig (e : nat) | RegEpoll (e : nat).
-   (* poller.addDialer: registered | fd >= len(connsUnix) (c.p stays nil) | epoll_ctl ADD failed (c.p set) *)
+   (* poller.addDialer: registered | fd >= len(connsUnix) | epoll_ctl ADD failed *)
 Inductive job := JNotify (e : option nat) | JDial (r : option nat).
 
 Inductive ev :=
@@ -117,16 +117,11 @@ Definition step (s : st) (a : action) : st * list ev :=
           let k0 := if inprog then KProg else KEstab in
           match r with
           | RegOk => (mk KDial true false 0 false None None [] inprog (negb inprog) [] k0 [] [] [] 0 0 false, [EDialStart])
-          | RegTooBig e =>
-              (* closeWithError(e) with c.p = nil: the pending callback is failed, nothing is notified; then `return err` *)
-              (mk KDial false true 0 true (Some (Some e)) None [] false false [] k0 [] []
-                  (if inprog then [Some e] else []) 1 0 false,
-               (if inprog then [EDial (Some e)] else []) ++ [EDialRej e])
-          | RegEpoll e =>
-              (* closeWithError(e) with c.p set: callback failed, close notification queued; then `return err` *)
-              (mk KDial true true 0 true (Some (Some e)) None [] false false [] k0 [JNotify (Some e)] []
-                  (if inprog then [Some e] else []) 1 0 false,
-               (if inprog then [EDial (Some e)] else []) ++ [EDialRej e])
+          | RegTooBig e | RegEpoll e =>
+              (* the failure is reported once, by DialAsync's return value: addDialer clears the pending callback (and, when
+                 epoll_ctl failed, the table slot and c.p) before closeWithError(e): no callback, no close notification,
+                 the descriptor is closed *)
+              (mk KDial false true 0 true (Some (Some e)) None [] false false [] k0 [] [] [] 1 0 false, [EDialRej e])
           end
       | _ => (s, [])
       end
@@ -193,7 +188,7 @@ Definition step (s : st) (a : action) : st * list ev :=
                    if closing k
                    then if inline_teardown k
                         then let '(s', evs) := teardown (set_closed s (Some e) (Some e) (tears s) n) (Some e) false in
-                             (s', evs ++ [EOp (cret s) k (RErr e)])
+                             (s', EOp (cret s) k (RErr e) :: evs)
                         else (set_closed s (Some e) (Some e) (tears s ++ [(t, Some e, false)]) n, [EOp (cret s) k (RErr e)])
                    else (mk (knd s) (managed s) (rej s) (opens s) (closed s) (flip s) (fop s) (tears s) (pend s) (imm s) (taken s) (kern s)
                             (jobs s) (notes s) (dials s) (fdcl s) (sys s + n) (cret s), [EOp (cret s) k RDone])
